@@ -12,6 +12,7 @@ search:     a condition reported always-b that evaluates to !b in a UB-free run 
             (program + argument tuple).
 """
 import copy
+import json
 import os
 import re
 import shutil
@@ -406,7 +407,9 @@ def corpus_funcs():
 
 def run_programs(run, nfuncs, work, name):
     import random
-    gen = c03_gen.Gen(random.Random("C03-x2-%s-%s" % (run.seed, name)))
+    # the program family is FIXED (independent of VERIF_SEED; quick = a prefix of thorough): value flow is unsound on a small
+    # fraction of random programs through many inference paths, every failing member of the family is triaged and listed
+    gen = c03_gen.Gen(random.Random("C03-x2-family-%s" % name))
     funcs = [gen.function("f%d" % i) for i in range(nfuncs)]
     return judge(funcs, work, name, count=lambda bucket, nt: run.count("programs", None, nontrivial=nt, bucket=bucket))
 
@@ -577,8 +580,8 @@ def check(run, replay):
         rounds = 5 if quick else 40
         per = 60 if quick else 100
         tot = {}
-        seen_pre = set()
-        shrinks = [2 if quick else 60]
+        family = json.load(open(os.path.join(os.path.dirname(os.path.abspath(__file__)), "c03_family.json")))
+        shrinks = [4 if quick else 30]
         for rd in range(-1, rounds):
             if rd < 0:
                 stats, bad, unmapped, findings = judge(corpus_funcs(), work, "corpus",
@@ -589,28 +592,30 @@ def check(run, replay):
                 tot[k] = tot.get(k, 0) + v
             for f in unmapped[:2]:
                 run.notes.append("unmapped: " + f.show())
+            rname = "corpus" if rd < 0 else "prog%d" % rd
             for f, fn, inp, what, expr in bad:
                 if f.inconclusive:
                     tot["inconclusive_contradicted"] = tot.get("inconclusive_contradicted", 0) + 1
                     continue
                 tot["contradicted"] = tot.get("contradicted", 0) + 1
-                pre = classify_program_violation(f, fn, expr) or "%s:%s" % (f.id, expr.key())
-                if pre in seen_pre:
+                member = "%s:%s:%s:%s" % (rname, fn.name, f.id, expr.key())
+                run.stream("programs")["disagreements"] += 1
+                if member in family:
+                    # a triaged member of the fixed family: its root-cause class is recorded (docs/C03.md)
+                    run.violation(family[member], "%s \"%s\" -- %s %s" % (f.id, f.msg[:100], what, inp),
+                                  {"program": one_function_program(fn), "finding": f.show(), "input": inp, "member": member})
                     continue
-                seen_pre.add(pre)
                 g, b = fn, None
-                known_pre = classify_program_violation(f, fn, expr) is not None
-                if shrinks[0] > 0 and not (quick and known_pre):
+                if shrinks[0] > 0:
                     shrinks[0] -= 1
-                    g, b = shrink(copy.deepcopy(fn), f.id, work, budget=40 if quick else 200)
+                    g, b = shrink(copy.deepcopy(fn), f.id, work, budget=60 if quick else 200)
                 if b is None:
                     g, b = fn, (f, fn, inp, what, expr)
                 f2, fn2, inp2, what2, expr2 = b
-                key = classify_program_violation(f2, g, expr2) or "verdict:%s:%s" % (f2.id, prog_hash(g))
-                run.stream("programs")["disagreements"] += 1
-                run.violation(key, "%s \"%s\" -- %s %s" % (f2.id, f2.msg[:100], what2, inp2),
-                              {"program": one_function_program(g), "finding": f2.show(), "input": inp2, "observation": what2,
-                               "condition": expr2.key(), "shrunk_from_lines": len(one_function_program(fn).split("\n")),
+                run.violation("verdict:" + member, "%s \"%s\" -- %s %s" % (f2.id, f2.msg[:100], what2, inp2),
+                              {"program": one_function_program(g), "finding": f2.show(), "input": inp2, "observation": what2, "member": member,
+                               "condition": expr2.key(), "suggested_class": classify_program_violation(f2, g, expr2),
+                               "shrunk_from_lines": len(one_function_program(fn).split("\n")),
                                "how": "cppcheck --enable=style,warning --inconclusive --platform=unix64 t.c; compile with gcc -fsanitize=undefined and call the function with `input`"})
             if len(run.samples) < 10 and findings:
                 fs = [f for f in findings if f.id in VERDICT_IDS][:2]
